@@ -360,6 +360,46 @@ def hook_cycle_case(rng):
     return lines
 
 
+def f33_case(rng):
+    """stop() during the back-off wait, then connect() again, then the clock passes the stale deadline (F33) - all
+    variants: how many refused attempts before stop(), stop()/connect() from the loop thread, another thread or the
+    DOWN callback's thread, the loop running stop()'s functor before the second connect() or not, the server
+    reachable / refusing / unreachable at the second connect(), retry enabled or not, how far the clock moves"""
+    lines = []
+    if rng.random() < 0.4:
+        lines.append("enableRetry")
+    nref = rng.choice([1, 1, 1, 2, 3])
+    second = rng.choice(["ok", "EINPROGRESS", "ECONNREFUSED", "ENETUNREACH", "EINPROGRESS"])
+    lines.append("script connect " + " ".join(["ECONNREFUSED"] * nref + [second] + ["EINPROGRESS"] * 3))
+    lines += ["connect " + rng.choice("LF"), "iter"]
+    delay = 500000
+    for _ in range(nref - 1):
+        lines += ["advance %d" % delay, "iter"]
+        delay *= 2
+    part = rng.choice([0, 1, delay // 2, delay - 1])
+    if part:
+        lines.append("advance %d" % part)
+    lines.append("stop " + rng.choice("LF"))
+    if rng.random() < 0.6:
+        lines.append("iter")
+    if rng.random() < 0.3:
+        lines.append("advance %d" % rng.choice([1, 100, (delay - part) // 2]))
+    lines.append("connect " + rng.choice("LLF"))
+    if rng.random() < 0.8:
+        lines.append("iter")
+    # past the stale deadline, exactly or generously; then let the attempt of the new cycle complete
+    lines.append("advance %d" % rng.choice([delay - part, delay - part + 1, delay, 2 * delay]))
+    lines += ["iter", "iter"]
+    if rng.random() < 0.5:
+        lines += ["advance 500000", "iter", "iter"]
+    if rng.random() < 0.5:
+        lines += ["stop " + rng.choice("LF"), "iter"]
+    lines += ["advance 31000000", "iter", "iter"]
+    if rng.random() < 0.4:
+        lines += ["destroy L", "iter", "advance 31000000", "iter", "iter"]
+    return lines
+
+
 def real_case(rng):
     """attempts against the raw listening socket: up / down / comes up later / closes immediately"""
     lines = []
@@ -452,9 +492,13 @@ def oracle(tr):
         prev = tr.steps[i - 1]["st"] if i > 0 else None
         if o == "connect":
             open_attempt = [k for k, v in socks.items() if v == "open"]
-            timer_out = expect_deadline is not None
+            # a back-off timer still armed is an overlapping connect - unless stop() ended that cycle: its timer must be
+            # cancelled (F33), the retry it stood for is void
+            timer_out = expect_deadline is not None and not stop_req
             if not alive or open_attempt or current is not None or timer_out or pending_start:
                 in_scope = False     # overlapping connect: the client defines no behaviour
+            if stop_req:
+                expect_deadline = None
             want, stop_req = True, False
             cycle_ups, cycle_retry = 0, 0
             if w[1] == "F":
@@ -612,7 +656,10 @@ def oracle(tr):
             n_open = sum(1 for v in socks.values() if v in ("open", "handed"))
             if int(st.get("fds", "0")) != n_open:
                 fail("fd-population", i, "%s client descriptors are open, the events account for %d" % (st.get("fds"), n_open))
-            if closed_here and alive and alarm not in (None, "-") and not stop_req:
+            # (an attempt after the close in the same step: a new cycle began right there and cancelled what was armed -
+            # connect() queued behind a stale timer's attempt; the descriptor may still be armed for the cancelled timer)
+            restarted = closed_here and any(e.startswith("attempt") for e in evs[evs.index(closed_here[-1]):])
+            if closed_here and alive and alarm not in (None, "-") and not stop_req and not restarted:
                 d = int(alarm)
                 exp = now + spec_delay_ms(cycle_retry) * 1000
                 if d != exp:
@@ -626,6 +673,12 @@ def oracle(tr):
                 gave_up = res and int(res[-1].split()[1]) not in (0, 115, 4, 106, 11, 98, 99, 111, 101)
                 if not gave_up:
                     fail("no-retry-scheduled", i, "the attempt failed, the user wants a connection, but no retry timer is armed")
+        # the retry must happen: an iteration at or past the deadline of the armed back-off timer makes the attempt
+        # (unless stop() or the destructor ended the cycle) - F33b: a stale stopInLoop() cancelled the new cycle's timer
+        if o == "iter" and expect_deadline is not None and alive and not stop_req and now >= expect_deadline[0]:
+            fail("retry-missed", i, "the back-off timer armed at step %d was due at %d µs; this iteration at %d µs made no attempt"
+                 % (expect_deadline[1], expect_deadline[0], now))
+            expect_deadline = None
         if o == "iter" and disconnect_pending and disconnect_pending[1] < i:
             k, j = disconnect_pending
             if k not in down:
@@ -723,7 +776,18 @@ class Prop:
                   "nesting - of 21 Connector/TcpClient functions extracted from the AST equals the one the model implements) and by a differential run of the real TcpClient in two build flavours; an "
                   "independent oracle evaluates the property on the implementation's own traces")
     level_note = ("Scope guard (explicit, decidable, `okIn`): connect() only on a live client with no attempt, connection, "
-                  "pending retry timer or queued connect() outstanding; disconnect/stop/enableRetry only on a live client; "
+                  "pending retry timer or queued connect() outstanding - except (F33, relaxed in this round) the retry timer "
+                  "of a cycle that stop() has ended: connect() on the loop thread while that timer is still armed is INSIDE "
+                  "(`connectOk`: nRetry = 0 or (w = loop and connect_ = false)), and after the loop ran stop()'s functor the "
+                  "timer is gone anyway (`stale_timer_cancelled`; the cancellations are the generated `stopCancelsRetryTimer`, "
+                  "`cycleStartCancelsRetryTimer`, `retryTimerStored`; `stale_timer_fires_without_cancel` is the negation "
+                  "witness for the shape before a9261b3). STILL OUTSIDE the theorems, covered by the oracle and the "
+                  "model/implementation comparison only: connect() from ANOTHER thread in the window in which stop()'s functor "
+                  "is still queued and the stopped cycle's timer still armed (the timer may fire before the queued functors "
+                  "run; invariant `Mid.a9` does not cover an attempt with a connect() queued behind it). The model's "
+                  "`cancelRetry` removes every pending back-off timer where the code cancels the one `retryTimer_` names: the "
+                  "same thing in every guarded history (`Mid.a8`: at most one is pending). "
+                  "disconnect/stop/enableRetry only on a live client; "
                   "from inside the UP callback never connect() (a connection is outstanding), from inside the DOWN callback "
                   "connect() only when retry is off (`enableRetry` and a registered `hookDown connect` exclude each other: both "
                   "would start an attempt; the model and the code then fail `!channel_`, example in Props/C12.lean); a callback "
@@ -753,7 +817,7 @@ class Prop:
         "EventLoop, TimerQueue, Channel, pollers, TcpConnection as far as the client uses them (properties C02-C07, C09)",
     ]
     assumptions = [
-        "connect() is issued only while no attempt, connection, pending retry timer or queued start of that client is outstanding (the property's quantifier)",
+        "connect() is issued only while no attempt, connection, pending retry timer (other than the timer of a cycle stop() has ended, on the loop thread) or queued start of that client is outstanding (the property's quantifier)",
         "user operations happen between loop iterations (on the loop thread, or on a foreign thread that is joined before the loop continues) or inside the client's connection callback on UP / DOWN (disconnect, stop, connect, reading connection()); the callback does not destroy the client and does nothing when it finds the client destroyed; message / write-complete callbacks do not operate on the client",
         "connect() from inside the UP callback and connect() from inside the DOWN callback of a retry-enabled client are outside the property's quantifier (overlapping connects)",
         "the user does not drop the last reference to a connection that is still up after destroying the client",
@@ -876,6 +940,11 @@ class Prop:
                         return
                 for i in range(max(n // 4, 10)):
                     self.run_one(ctx, exe, fl, hook_cycle_case(ctx.rng), "hook-cycles", argv=argv)
+                    if ctx.stop():
+                        return
+                for i in range(max(n // 5, 12)):
+                    self.run_one(ctx, exe, fl, f33_case(ctx.rng), "stop-during-backoff", argv=argv)
+                    ctx.count("f33_cases")
                     if ctx.stop():
                         return
                 for i in range(nreal if fl != "asan" else nreal // 3):
